@@ -9,5 +9,8 @@ CONSTANTS
   MaxRej = 3
   Impl = "fixed"
   Sym = FALSE
-INVARIANTS TypeOK R0ok R1ok R2ok R3ok R4ok R6ok
+  NCallers = 0
+  Removal = "skip"
+  Emit = "all"
+INVARIANTS TypeOK Gone R0ok R1ok R2ok R3ok R4ok R6ok
 CHECK_DEADLOCK FALSE
